@@ -170,23 +170,17 @@ Section Ring32.
   (* init(Element&, double): integer-valued a (std::fmod of an integer-valued double by an integer-valued
      double is exact); |a| mod p, cast to uint32_t *)
   Definition init_double (a : Z) : Z := init_tail (a <? 0) (u32 (Z.rem (Z.abs a) p)).
-  (* init(Element&, int64_t): std::abs wraps at INT64_MIN (undefined behaviour in C++; modelled as wrap) *)
+  (* init(Element&, int64_t): r = std::abs(a % int64_t(_p)) *)
   Definition init_int64 (a : Z) : Z :=
-    let ab := if a <? 0 then s64 (- a) else a in
-    init_tail (a <? 0) (u32 (Z.rem ab (s64 p))).
+    init_tail (a <? 0) (u32 (Z.abs (Z.rem a (s64 p)))).
   Definition init_uint64 (a : Z) : Z := init_tail false (u32 (a mod (u64 p))).
   (* init(Element&, const Integer&): ((a<0)?-a:a) % _p on Integer is exact *)
   Definition init_integer (a : Z) : Z := init_tail (a <? 0) (u32 (Z.abs a mod p)).
-  (* template init, T = int (also short/char after promotion): Caster<Element>(r, a<0 ? -a : a) %= _p *)
-  Definition init_int32 (a : Z) : Z :=
-    let ab := if a <? 0 then s32 (- a) else a in
-    init_tail (a <? 0) (u32 (u32 ab mod p)).
-  Definition init_uint32 (a : Z) : Z := init_tail false (u32 (u32 a mod p)).
-  (* template init, T = long long / unsigned long long: the Caster truncates to uint32_t BEFORE %= *)
-  Definition init_longlong (a : Z) : Z :=
-    let ab := if a <? 0 then s64 (- a) else a in
-    init_tail (a <? 0) (u32 (u32 ab mod p)).
-  Definition init_ulonglong (a : Z) : Z := init_tail false (u32 (u32 a mod p)).
+  (* template init (every other arithmetic T): init(r, Caster<int64_t>(a)) *)
+  Definition init_int32 (a : Z) : Z := init_int64 (s64 a).
+  Definition init_uint32 (a : Z) : Z := init_int64 (s64 a).
+  Definition init_longlong (a : Z) : Z := init_int64 (s64 a).
+  Definition init_ulonglong (a : Z) : Z := init_int64 (s64 a).
 
   (* convert: r = Caster<T>(redc(c, a)) *)
   Definition convert (a : Z) : Z := redc a.
@@ -393,7 +387,7 @@ Section RecIntMG.
       let ci := mgi_inv c in if ci =? 0 then 0 else mgi_mul b ci.
     Definition mgi_addmul (a b c : Z) : Z := (b * c + a) mod p.   (* laddmul(res, b, c, a); reduction *)
     (* rmbexp.h -> ruexp.h exp_mod: a = 1; every bit of the exponent type, LSB first *)
-    Definition mgi_exp (nbits : nat) (b e : Z) : Z := pow_lsb mgi_mul nbits 1 b e.
+    Definition mgi_exp (nbits : nat) (b e : Z) : Z := pow_lsb mgi_mul nbits (if p =? 1 then 0 else 1) b e.   (* a = (n == 1u) ? 0u : 1u *)
   End MGI.
   (* rmint<K,MGI>(const rmint<K,MGA>&): leaves Montgomery form (as repaired by frag/C07.fix-2), then reduction *)
   Definition mgi_of_mga (M : mgmod) (c : Z) : Z := (mga_get_ruint M c) mod (g_p M).
